@@ -13,6 +13,24 @@ def load_known(prop):
     return [e for e in data.get("findings", []) if e.get("property") == prop]
 
 
+INSTANCES = os.path.join(tc.VERIF, "known_instances.json")
+
+
+def load_instances(prop, tier):
+    """{finding id: {obligation key: signature}} frozen on the pinned tree by `VERIF_FREEZE_INSTANCES=1 check.py ...`;
+    a listed finding covers exactly these obligations with exactly these deviations"""
+    if not os.path.exists(INSTANCES):
+        return None
+    with open(INSTANCES) as f:
+        data = json.load(f)
+    return data.get(prop, {}).get(tier)
+
+
+def signature(text):
+    import hashlib
+    return hashlib.sha1(text.replace(tc.REPO, "/repo").encode()).hexdigest()[:12]
+
+
 def _safe(s):
     import hashlib
     return re.sub(r"[^A-Za-z0-9_.+-]+", "_", s)[:120] + "." + hashlib.sha1(s.encode()).hexdigest()[:8]
@@ -36,6 +54,8 @@ class Run:
 
     def finish(self):
         known = load_known(self.prop)
+        inst = load_instances(self.prop, self.tier)
+        freeze = os.environ.get("VERIF_FREEZE_INSTANCES")
         unlisted, listed = [], []
         used = set()
         for v in self.violations:
@@ -45,11 +65,30 @@ class Run:
                 if pat is not None and re.fullmatch(pat, v["finding_key"]):
                     hit = e
                     break
+            if hit is not None and inst is not None and not freeze:
+                # the finding is the recorded set of failing obligations, each with the recorded deviation: a new
+                # obligation of the same class, or a recorded one failing differently, is a different violation
+                rec = inst.get(hit.get("id"), {}).get(v["key"])
+                if rec is None:
+                    v["text"] += "  [same class as known finding %s but not one of its recorded instances]" % hit.get("id")
+                    hit = None
+                elif rec != signature(v["text"]):
+                    v["text"] += "  [a recorded instance of known finding %s now fails differently]" % hit.get("id")
+                    hit = None
             if hit is not None:
                 listed.append((v, hit))
                 used.add(hit.get("id"))
             else:
                 unlisted.append(v)
+        if freeze:
+            data = json.load(open(INSTANCES)) if os.path.exists(INSTANCES) else {}
+            table = {}
+            for v, e in listed:
+                table.setdefault(e.get("id"), {})[v["key"]] = signature(v["text"])
+            data.setdefault(self.prop, {})[self.tier] = table
+            with open(INSTANCES, "w") as f:
+                json.dump(data, f, indent=0, sort_keys=True)
+            print("froze %d known-finding instances for %s/%s" % (sum(len(t) for t in table.values()), self.prop, self.tier))
         # one KNOWN-FINDING line per listed finding entry that fired
         printed = set()
         for v, e in listed:
